@@ -97,6 +97,8 @@ def run_mc(wd, name, constants, invariants, properties, workers, timeout):
     fail = tlc_failed(out, rc)
     st = tlc_stats(out)
     viol = tlc_violation(out)
+    if st is None and not fail and not viol:
+        fail = "TLC ended without statistics (rc=%s): killed or out of memory" % rc
     return {"name": name, "wall": time.time() - t0, "fail": fail, "stats": st, "violation": viol, "out": out,
             "constants": {k: v for k, v in constants.items()}}
 
